@@ -296,6 +296,46 @@ def main():
 ''', hostile=True)
 
 
+P('observed_access', '''
+DATA = {}
+class AuditedSettings(dict):
+    """Remembers which options were read."""
+    def __init__(self, *a, **kw):
+        super().__init__(*a, **kw)
+        self.read = []
+    def __getitem__(self, key):
+        self.read.append(key)
+        return super().__getitem__(key)
+class CountingList(list):
+    def __init__(self, *a):
+        super().__init__(*a)
+        self.iterations = 0
+    def __iter__(self):
+        self.iterations += 1
+        return super().__iter__()
+class LazyAttr:
+    def __init__(self):
+        self.loads = 0
+    @property
+    def value(self):
+        self.loads += 1
+        return 42
+def main():
+    settings = AuditedSettings(debug=True, legacy=False)
+    items = CountingList([1, 2, 3])
+    lazy = LazyAttr()
+    used = settings['debug']
+    total = 0
+    for i in items:
+        total += i
+    DATA['read'] = list(settings.read)
+    DATA['iterations'] = items.iterations
+    DATA['loads'] = lazy.loads
+    out('observed', used, total)
+    return total
+''', hostile=True)
+
+
 def names(tier='quick'):
     return list(CORPUS)
 
